@@ -5,9 +5,10 @@ package bip39
 // Machine-checked contracts for this package (read by /verif/govc; comment-only, compiled only
 // with -tags verif). See /verif/DESIGN.md.
 //
-// Component level: the size rules, the checksum (first ENT/32 bits of SHA-256) and the re-padding
-// of the entropy to ENT/8 bytes, which must put the zero bytes in front (the big.Int round trip drops
-// leading zero bytes, not trailing ones).
+// The size rules, the checksum (first ENT/32 bits of SHA-256), the re-padding of the entropy to ENT/8
+// bytes (which must put the zero bytes in front: the big.Int round trip drops leading zero bytes, not
+// trailing ones), and both directions between entropy and sentence, one proof per size, over an
+// arbitrary word list (see pkg/bip39/wordlist).
 
 //@ props C03
 
@@ -39,3 +40,44 @@ package bip39
 //@   requires numBits == NB
 //@   panics  never
 //@   ensures r != nil && *r == be(sha256(bytes)[0:32]) / pow(2, 256 - NB) && 0 <= *r && *r < pow(2, NB)
+
+// ---- entropy to sentence, one proof per entropy size ES (bytes): CS = ES/4 checksum bits, WC = 3*ES/4
+// words. total(e) is entropy||checksum read as a number; word i of the sentence is the word whose index is
+// the i-th 11-bit group from the top. The word list is whatever is currently selected (an arbitrary
+// wordlist.List).
+//@ spec cksum(e []byte) mathint = floordiv(be(sha256(e)[0:32]), pow(2, 256 - ES/4))
+//@ spec total(e []byte) mathint = be(e) * pow(2, ES/4) + cksum(e)
+//@ spec widxof(e []byte, i int) int = int(floormod(floordiv(total(e), pow(2048, 3*ES/4 - 1 - i)), 2048))
+
+//@ func EntropyToMnemonic(entropy []byte) (r Mnemonic, err error)
+//@   specialize ES = 16 20 24 28 32 36 40 44 48 52 56 60 64
+//@   requires len(entropy) == ES
+//@   loop 1 unroll
+//@   panics  never
+//@   ensures isnil(err) && len(r) == 3*ES/4
+//@   ensures forall(i, 0, 3*ES/4, r[i] == wordList.Word(widxof(entropy, i)))
+
+// ---- sentence to entropy, one proof per word count WC (entropy bytes 4*WC/3, checksum bits WC/3).
+// dec(m) is the sentence read as a base-2048 number of word indices; its low WC/3 bits are the checksum, the
+// rest the entropy, which must come back as exactly 4*WC/3 big-endian bytes.
+//@ func validateMnemonic(mnemonic Mnemonic) (err error)
+//@   specialize WC = 0 1 11 12 13 15 18 21 24 27 30 33 36 39 42 45 48 49 51
+//@   seqlen mnemonic WC
+//@   panics  never
+//@   ensures isnil(err) == (WC % 3 == 0 && 12 <= WC && WC <= 48 && forall(i, 0, WC, wordlist.wok(wordList, mnemonic[i])))
+//@   ensures implies(!isnil(err), is(err, ErrInvalidMnemonic))
+
+//@ spec dec(m Mnemonic) mathint = horner(i, 0, WC, 2048, wordlist.widx(wordList, m[i]))
+//@ spec ent(m Mnemonic) mathint = floordiv(dec(m), pow(2, WC/3))
+//@ spec allwords(m Mnemonic) bool = forall(i, 0, WC, wordlist.wok(wordList, m[i]))
+//@ spec csok(m Mnemonic) bool = floormod(dec(m), pow(2, WC/3)) == floordiv(be(sha256(mkarray(4*WC/3, k, byte(ent(m) >> (8*(4*WC/3-1-k))))[0:4*WC/3])[0:32]), pow(2, 256 - WC/3))
+
+//@ func MnemonicToEntropy(mnemonic Mnemonic) (r []byte, err error)
+//@   specialize WC = 12 15 18 21 24 27 30 33 36 39 42 45 48
+//@   seqlen mnemonic WC
+//@   loop 1 unroll
+//@   panics  never
+//@   check   forall(k, 0, 4*WC/3, entropy[k] == byte(ent(mnemonic) >> (8*(4*WC/3-1-k))))
+//@   ensures isnil(err) == (allwords(mnemonic) && csok(mnemonic))
+//@   ensures implies(isnil(err), len(r) == 4*WC/3 && forall(k, 0, 4*WC/3, r[k] == byte(ent(mnemonic) >> (8*(4*WC/3-1-k)))))
+//@   ensures implies(!isnil(err), r == nil && implies(allwords(mnemonic), is(err, ErrInvalidChecksum)) && implies(!allwords(mnemonic), is(err, ErrInvalidMnemonic)))
